@@ -14,7 +14,7 @@ BOUNDS = ("Plate / slice operations on 2x3 plates (2x2 for many-to-one) with non
           "over the 18 non-overlapping geometries of C01 (incl. 3 with slices of slices) (row/col/rect/stepped/list/1->all/all->1/whole Plate either "
           "side/container->plate,list/plate,col->container/same plate disjoint) in uL and mg; remove (water, SOLID, "
           "ENZYME) and fill_to (uL, mg, umol) on plate/row/col/rect/stepped/well/list selections; each also as a "
-          "recipe step through bake; 12 shape combinations that must be rejected. Oracle: the same stand-alone "
+          "recipe step through bake, alone and after an earlier step that changed every well of the plate; 12 shape combinations that must be rejected. Oracle: the same stand-alone "
           "Container operation applied to free-standing copies of the addressed wells, folded in row-major order, "
           "executed symbolically by the same engine. Lite rounding model; 'tight' precondition q < held per source well.")
 OUTSIDE = ("IEEE rounding; overlapping source/destination regions (C01 known finding); plates larger than 2x3; failure "
@@ -54,11 +54,11 @@ def cells(tier, seed):
                             'cost': 4, 'params': {'geom': g, 'unit': unit, 'via': via}})
     for sel in SEL:
         for what in (['water', 'SOLID', 'ENZYME'] if tier == 'thorough' else ['water', 'SOLID']):
-            for via in ['direct', 'recipe']:
+            for via in ['direct', 'recipe', 'recipe2']:
                 out.append({'id': f"remove/{sel}/{what}/{via}", 'fn': 'h_remove', 'round': 'lite', 'max_paths': 40,
                             'cost': 2, 'params': {'sel': sel, 'what': what, 'via': via}})
         for unit in (['uL', 'mg', 'umol'] if tier == 'thorough' else ['uL', 'mg']):
-            for via in ['direct', 'recipe']:
+            for via in (['direct', 'recipe', 'recipe2'] if unit == 'uL' or tier == 'thorough' else ['direct', 'recipe']):
                 out.append({'id': f"fill_to/{sel}/{unit}/{via}", 'fn': 'h_fill_to', 'round': 'lite', 'max_paths': 200,
                             'cost': 3, 'params': {'sel': sel, 'unit': unit, 'via': via}})
     for i in range(len(BAD_SHAPES)):
@@ -202,14 +202,51 @@ def _what(h, lib, name):
     return {'water': lib['water'], 'SOLID': S_.SOLID, 'ENZYME': S_.ENZYME, 'LIQUID': S_.LIQUID}[name]
 
 
+def _pre_step(h, lib, P):
+    """an earlier recipe step that changes every well of the plate: a stock of DMSO dispensed into the whole plate.
+    Returns (stock, quantity string, {rc: stand-alone well after that step})"""
+    C = h.env.Container
+    stock = C('stock')
+    stock.contents[lib['DMSO']] = h.real('stock.DMSO', 10**5, 10**6)
+    set_volume(h, lib, stock)
+    q0 = h.real('q0', Fr(1, 100), 100)
+    quantity = f"{q0} uL"
+    cur = _standalone(h, stock)
+    wells = {}
+    for r in range(P.wells.shape[0]):
+        for c in range(P.wells.shape[1]):
+            cur, wells[(r, c)] = C.transfer(cur, _standalone(h, P.wells[r, c]), quantity)
+    return stock, quantity, wells
+
+
+def _others_equal(h, label, R, expected, skip, region):
+    for rc, w in expected.items():
+        if rc in skip:
+            continue
+        _require_same(h, f'{label}:other-wells', R.wells[rc], w, region, f"well {rc} is not addressed by the step under test")
+
+
 def h_remove(h):
     p = h.p
     Recipe = h.env.Recipe
-    lib = Lib(h, ['water', 'NaCl', 'lipase'])
+    lib = Lib(h, ['water', 'NaCl', 'lipase', 'DMSO'])
     P = _mk_plate(h, lib, 'P', (2, 3), ['water', 'NaCl', 'lipase'], lo=0)
     item, addressed = SEL[p['sel']]
     what = _what(h, lib, p['what'])
     target = P if item == 'PLATE' else P[item]
+    if p['via'] == 'recipe2':
+        # the step under test comes second: it must act on the plate as the first step left it
+        stock, q0, pre = _pre_step(h, lib, P)
+        oracle = {rc: pre[rc].remove(what) for rc in addressed}
+        rec = Recipe().uses(stock, P)
+        rec.transfer(stock, P, q0)
+        rec.remove(target, what)
+        R = rec.bake()['P']
+        h.outcome = 'ok'
+        for rc in addressed:
+            _require_same(h, 'remove:addressed-well', R.wells[rc], oracle[rc], p['via'], f"well {rc} equals Container.remove")
+        _others_equal(h, 'remove', R, pre, set(addressed), p['via'])
+        return
     oracle = {rc: _standalone(h, P.wells[rc]).remove(what) for rc in addressed}
     if p['via'] == 'direct':
         R = target.remove(what)
@@ -226,7 +263,7 @@ def h_remove(h):
 def h_fill_to(h):
     p = h.p
     Recipe = h.env.Recipe
-    lib = Lib(h, ['water', 'NaCl', 'lipase'])
+    lib = Lib(h, ['water', 'NaCl', 'lipase', 'DMSO'])
     P = _mk_plate(h, lib, 'P', (2, 3), ['water', 'NaCl'], lo=Fr(1, 1000), hi=10**3)
     item, addressed = SEL[p['sel']]
     prefix, base = split_unit(p['unit'])
@@ -234,19 +271,28 @@ def h_fill_to(h):
     # keep the fold single-path: the target is above what every addressed well holds.  Through a recipe, bake also
     # builds an instruction text that groups wells by the (rounded) amount added; requiring at least ~1 mL to be
     # added to every well keeps its "rounded amount == 0" tests decided instead of forking per well.
-    margin = {'L': Fr(1, 1000), 'g': Fr(1), 'mol': Fr(1, 10)}[base] if p['via'] == 'recipe' else 0
+    margin = {'L': Fr(1, 1000), 'g': Fr(1), 'mol': Fr(1, 10)}[base] if p['via'] != 'direct' else 0
     wells = addressed if p['via'] == 'direct' else [(r, c) for r in range(2) for c in range(3)]
     for rc in wells:
         h.assume(h.gt(T * PREFIX[prefix], lib.total(P.wells[rc].contents, base) + margin))
     water = lib['water']
     target = P if item == 'PLATE' else P[item]
     quantity = f"{T} {p['unit']}"
-    oracle = {rc: _standalone(h, P.wells[rc]).fill_to(water, quantity) for rc in addressed}
     region = p['via'] + ('/slice' if item != 'PLATE' else '/plate')
+    pre = None
+    if p['via'] == 'recipe2':
+        stock, q0, pre = _pre_step(h, lib, P)
+        for rc in pre:
+            h.assume(h.gt(T * PREFIX[prefix], lib.total(pre[rc].contents, base) + margin))
+        oracle = {rc: pre[rc].fill_to(water, quantity) for rc in addressed}
+    else:
+        oracle = {rc: _standalone(h, P.wells[rc]).fill_to(water, quantity) for rc in addressed}
     if p['via'] == 'direct':
         R = target.fill_to(water, quantity)
     else:
-        rec = Recipe().uses(P)
+        rec = Recipe().uses(P) if pre is None else Recipe().uses(stock, P)
+        if pre is not None:
+            rec.transfer(stock, P, q0)
         rec.fill_to(target, water, quantity)
         try:
             R = rec.bake()['P']
@@ -257,7 +303,10 @@ def h_fill_to(h):
     h.outcome = 'ok'
     for rc in addressed:
         _require_same(h, 'fill_to:addressed-well', R.wells[rc], oracle[rc], region, f"well {rc} equals Container.fill_to")
-    _untouched(h, 'fill_to', P, R, set(addressed), region)
+    if pre is None:
+        _untouched(h, 'fill_to', P, R, set(addressed), region)
+    else:
+        _others_equal(h, 'fill_to:other-wells-identical', R, pre, set(addressed), region)
 
 
 def h_shape_rule(h):
